@@ -90,6 +90,22 @@ MUTANTS = [
      'fxpmath/objects.py',
      "        if inaccuracy and isinstance(result, self.__class__):\n            result.status['inaccuracy'] = True",
      "        if inaccuracy and isinstance(result, self.__class__) and out is None:\n            result.status['inaccuracy'] = True"),
+    ('M36', 'C04', 'object-dtype arrays are cast to the type of their first element again (original defect of fix ceba123; its plain reverse no longer applies)',
+     'fxpmath/objects.py',
+     "            if val.dtype == object and not all(isinstance(v, (int, np.integer)) for v in val.flat):",
+     "            if False and val.dtype == object and not all(isinstance(v, (int, np.integer)) for v in val.flat):"),
+    ('M37', 'C10', 'utils.shift_raw multiplies in the machine word again (original defect of fix 63c49e7; its plain reverse no longer applies)',
+     'fxpmath/utils.py',
+     "    if shift > 0 and isinstance(raw, (np.ndarray, np.generic)) and raw.dtype.kind in 'iu' and raw.size > 0:",
+     "    if False and shift > 0 and isinstance(raw, (np.ndarray, np.generic)) and raw.dtype.kind in 'iu' and raw.size > 0:"),
+    ('M38', 'C02', 'Python integers in [2**63, 2**64) become uint64 arrays again (original defect of fix 9e7c6f7; its plain reverse no longer applies)',
+     'fxpmath/objects.py',
+     "        if _from_python and val.dtype == np.uint64 and val.size > 0 and int(val.max()) >= 2**63:",
+     "        if False and _from_python and val.dtype == np.uint64 and val.size > 0 and int(val.max()) >= 2**63:"),
+    ('M39', 'C10', 'equal() indexes the source with None again (original defect of fix 3bb6526: a leading axis; its plain reverse no longer applies)',
+     'fxpmath/objects.py',
+     "            new_val_raw = utils.shift_raw(x.val, self.n_frac - x.n_frac)\n            self.set_val(new_val_raw, raw=True, index=index)",
+     "            raw_val = x.val[index] if index is None else x.val\n            new_val_raw = utils.shift_raw(raw_val, self.n_frac - x.n_frac)\n            self.set_val(new_val_raw, raw=True, index=index)"),
     ('M35', 'C10', 'utils.shift_raw switches to Python integers one bit too late (products in [2**63, 2**64) still wrap)',
      'fxpmath/utils.py',
      "<< shift >= 2**63:",
